@@ -6,7 +6,7 @@ import ast
 import re
 
 from ..cfg import cfg_of
-from ..core import AnalysisError, call_name, named_args, unparse, walk_no_nested
+from ..core import AnalysisError, call_name, inline_locals, named_args, unparse, walk_no_nested
 from ..packs import ecc
 from ..report import Ctx
 from ..pattern import body_is, find, find_expr, has, has_expr
@@ -14,10 +14,48 @@ from ..pattern import body_is, find, find_expr, has, has_expr
 
 #: obligations whose failure contradicts the property (rule, construct pattern, why); every other failure is 'not recognised'
 POSITIVE: list[tuple[str, str, str]] = [
-    ('C09.R2', r'^calculator:rebuild$', 'dominance: the individual map is handed to the engine on a path without a rebuild'),
-    ('C09.R2', r'^BIOGEME\.\w+:rebuild$', 'dominance: the engine uses the panel map on a path without a rebuild'),
     ('C09.R4', r':record$', 'the record of the trajectory operator is not the one the engine parses'),
 ]
+
+
+def _rebuilt_before(fn: ast.FunctionDef, uses: list[ast.Call], db: str, panel_is_column: bool, prepares: tuple[str, ...] = (), new_helpers=()) -> tuple[bool | None, str]:
+    """(verdict, reason): on panel data every use of the individual map in fn comes after a rebuild of it.  True: every path to every use passes
+    `<db>.build_panel_map()` (or one of `prepares`, the methods that do just that), the tests that depend on the data being panel taken as true and the
+    tests that guard the use as holding.  False: some path reaches a use and no rebuild stands on it, or the rebuild is skipped when a map exists
+    already.  None: a rebuild stands under tests (in loops, in new helpers) the rule cannot relate to the use."""
+    from .c04 import Flow, _reached_without
+
+    flow = Flow(fn, panel_is_column)
+    rebuilds = []
+    for c in walk_no_nested(fn):
+        if isinstance(c, ast.Call) and isinstance(c.func, ast.Attribute):
+            recv = unparse(inline_locals(fn, c.func.value))
+            if (c.func.attr == 'build_panel_map' and recv == db) or (recv == 'self' and c.func.attr in prepares):
+                rebuilds.append(c)
+    # a function the reference tree does not have and that was not expanded where it is called may be the rebuild
+    opaque = [c for c in walk_no_nested(fn) if isinstance(c, ast.Call) and call_name(c) in new_helpers]
+    verdict, reason = True, ''
+    for u in uses:
+        facts = flow.guards(u)
+        facts.setdefault(f'{db}.is_panel()', True)
+        g, undecided = flow.under(facts)
+        at_u = flow.at(u)
+        points = {x for r in rebuilds for x in flow.at(r)} - set(at_u)
+        if at_u and not any(_reached_without(g, b, points) for b in at_u):
+            continue
+        holders = flow.holders(rebuilds, undecided)
+        # an `if` that reads the map itself to decide whether to rebuild it takes the existence of a map for its being up to date
+        stale = {x: i for x, i in holders.items() if isinstance(i, ast.If) and re.search(r'\b(individualMap|fullIndividualMap)\b', unparse(inline_locals(fn, i.test)))}
+        maybe = (set(holders) - set(stale)) | {x for c in opaque for x in flow.at(c)}
+        if not at_u:
+            verdict, reason = None, 'the statement of the use is not in the graph of the function'
+        elif any(_reached_without(g, b, points | set(holders) | maybe) for b in at_u):
+            return False, 'no rebuild of the map stands on some path to the use'
+        elif stale and any(_reached_without(g, b, points | maybe) for b in at_u):
+            return False, f'the map is rebuilt only when `{unparse(next(iter(stale.values())).test)}`: a map that exists already is taken as up to date'
+        else:
+            verdict, reason = None, 'a rebuild of the map stands under tests, in a loop or in a new function the rule cannot relate to the use'
+    return verdict, reason
 
 
 def run(ctx: Ctx) -> None:
@@ -87,10 +125,15 @@ self.individualMap = pd.DataFrame(_M).T
     ctx.add('C09.R1', 'Database.build_panel_map:order', ok if (ok or why) else None, b, 'sort, then renumber the index, then build the map' if ok else (why or f'the beginning of build_panel_map is not in the expected form: {steps[:2]}'), str(steps[:2]), positive=bool(why))
     byfreq = None
     if not okm:
-        vc = [c_ for c_ in walk_no_nested(b.node) if isinstance(c_, ast.Call) and call_name(c_) == 'value_counts' and named_args(c_).get('sort') != 'False' and not any(k.arg == 'sort' and unparse(k.value) == 'False' for k in c_.keywords)]
-        cum = any(isinstance(c_, ast.Call) and call_name(c_) == 'cumsum' for c_ in walk_no_nested(b.node))
-        if vc and cum:
-            byfreq = f'the ranges of rows are cumulated over {unparse(vc[0])[:60]}, which lists the individuals by decreasing number of rows, while the rows are sorted by individual: in an unbalanced panel an individual is mapped to the rows of others'
+        # what is cumulated (locals resolved) is the result of value_counts() as it comes, in the order of the counts: nothing puts it back in the
+        # order of the individuals (sort=False keeps the order of the rows, sort_index / reindex / a selection by labels gives the order of the labels)
+        for cs in [c_ for c_ in walk_no_nested(b.node) if isinstance(c_, ast.Call) and call_name(c_) == 'cumsum' and isinstance(c_.func, ast.Attribute)]:
+            what = inline_locals(b.node, cs.func.value)
+            inner = [c_ for c_ in ast.walk(what) if isinstance(c_, ast.Call)]
+            vc = [c_ for c_ in inner if call_name(c_) == 'value_counts' and not any(k.arg in ('sort', None) for k in c_.keywords) and not c_.args]
+            reordered = any(call_name(c_) in ('sort_index', 'reindex', 'sort_values', 'loc', 'reindex_like') for c_ in inner) or any(isinstance(x_, ast.Subscript) for x_ in ast.walk(what) if not any(x_ is y_ for v_ in vc for y_ in ast.walk(v_)))
+            if vc and not reordered:
+                byfreq = f'the ranges of rows are cumulated over {unparse(vc[0])[:60]}, which lists the individuals by decreasing number of rows, while the rows are sorted by individual: in an unbalanced panel an individual is mapped to the rows of others'
     ctx.add('C09.R1', 'Database.build_panel_map:rows', okm if (okm or byfreq) else None, b, byfreq if byfreq else 'each individual is mapped to [first, last] position of its rows' if okm else 'the map rows are no longer [min, max] of the positions of the rows of the individual', 'rows', positive=bool(byfreq))
     cg = prog.func('tools.database', 'count_number_of_groups')
     ok = has(cg.node, "df['_bio_groups'] = pd.Series(df[column] != df[column].shift(1)).cumsum()\n_R = len(df['_bio_groups'].unique())\n___\nreturn _R")
@@ -99,16 +142,28 @@ self.individualMap = pd.DataFrame(_M).T
     # (the table handed to the engine must be the one the panel map describes: database.data, which build_panel_map re-sorts)
     ecc(ctx, 'C09.R2', methods={'setPanel', 'setDataMap', 'setData'})
     B = prog.cls('biogeme', 'BIOGEME')
+    ipd = D.methods.get('is_panel')
+    panel_is_column = ipd is not None and len(ipd.body) == 1 and unparse(ipd.body[0]) == 'return self.panelColumn is not None'
+    engine_uses = ('setDataMap', 'calculateLikelihood', 'calculateLikelihoodAndDerivatives')
+    new_methods = {m.name for m in B.methods.values() if getattr(m.node, '_verif_new_helper', False) and not getattr(m.node, '_verif_transparent', False)}
     for name in ('__init__', 'simulate', 'calculate_likelihood', 'calculate_likelihood_and_derivatives'):
         f = B.methods[name]
-        c = cfg_of(f.node)
-        rebuild = [n for n in walk_no_nested(f.node) if isinstance(n, ast.Expr) and unparse(n.value) in ('self._prepare_database_for_formula()', 'self.database.build_panel_map()')]
-        uses = [n for n in walk_no_nested(f.node) if isinstance(n, ast.Call) and unparse(n.func) in ('self.theC.setDataMap', 'self.theC.calculateLikelihood', 'self.theC.calculateLikelihoodAndDerivatives') and (unparse(n.func) != 'self.theC.setDataMap' or unparse(n.args[0]) == 'self.database.individualMap')]
-        ok = bool(rebuild) and bool(uses) and all(any(c.dominates(c.node_of(r), c.node_of(u)) for r in rebuild) for u in uses)
-        ctx.add('C09.R2', f'BIOGEME.{name}:rebuild', ok, f, 'the panel map is rebuilt before the engine uses it' if ok else f'BIOGEME.{name} uses the panel map without rebuilding it first', 'rebuild')
-    pd_ = B.methods['_prepare_database_for_formula']
-    ok = 'if self.database.is_panel():\n        self.database.build_panel_map()' in unparse(pd_.node)
-    ctx.add('C09.R2', 'BIOGEME._prepare_database_for_formula', ok, pd_, 'rebuilds the map for panel data' if ok else '_prepare_database_for_formula changed', 'prep')
+        # (the engine object and the database may be held in locals)
+        uses = [n for n in walk_no_nested(f.node) if isinstance(n, ast.Call) and isinstance(n.func, ast.Attribute) and n.func.attr in engine_uses and unparse(inline_locals(f.node, n.func.value)) == 'self.theC'
+                and (n.func.attr != 'setDataMap' or (n.args and unparse(inline_locals(f.node, n.args[0])) == 'self.database.individualMap'))]
+        if not uses:
+            ctx.add('C09.R2', f'BIOGEME.{name}:rebuild', None, f, f'BIOGEME.{name}: the call that makes the engine read the panel map is not in a form the rule understands', 'rebuild')
+            continue
+        ok, why = _rebuilt_before(f.node, uses, 'self.database', panel_is_column, prepares=('_prepare_database_for_formula',), new_helpers=new_methods)
+        ctx.add('C09.R2', f'BIOGEME.{name}:rebuild', ok, f, 'the panel map is rebuilt before the engine uses it' if ok else (f'BIOGEME.{name} uses the panel map without rebuilding it first: {why}' if ok is False
+                else f'BIOGEME.{name}: whether the panel map is rebuilt before the engine uses it is not decided: {why}'), 'rebuild', positive=ok is False)
+    pd_ = B.methods.get('_prepare_database_for_formula')
+    if pd_ is None:
+        # (a private method: the rebuild may have been written where it was called, which the obligations above have examined)
+        ctx.add('C09.R2', 'BIOGEME._prepare_database_for_formula', None, B, 'BIOGEME no longer has the method _prepare_database_for_formula', 'prep')
+    else:
+        ok = 'if self.database.is_panel():\n        self.database.build_panel_map()' in unparse(pd_.node)
+        ctx.add('C09.R2', 'BIOGEME._prepare_database_for_formula', ok, pd_, 'rebuilds the map for panel data' if ok else '_prepare_database_for_formula changed', 'prep')
     init = B.methods['__init__']
     sp = [n for n in walk_no_nested(init.node) if isinstance(n, ast.If) and unparse(n.test) == 'self.database.is_panel()' and 'self.theC.setPanel(True)' in unparse(n) and 'self.theC.setDataMap(self.database.individualMap)' in unparse(n)]
     ctx.add('C09.R2', 'BIOGEME.__init__:setPanel', len(sp) == 1, init, 'panel data: setPanel(True) together with the map' if sp else 'setPanel(True) no longer accompanies the map', 'setPanel')
@@ -123,14 +178,14 @@ if the_expression.embed_expression('PanelLikelihoodTrajectory'):
         ___
         raise BiogemeError(__MSG)
 """)
-    # positive form of "rebuilt before it is handed over": every hand-over of the map is dominated by an unconditional rebuild
-    ccfg = cfg_of(calc.node)
+    # positive form of "rebuilt before it is handed over": on every path to a hand-over of the map stands a rebuild
     hand = [c for c in walk_no_nested(calc.node) if isinstance(c, ast.Call) and call_name(c) == 'setDataMap']
-    builds = [c for c in walk_no_nested(calc.node) if isinstance(c, ast.Call) and call_name(c) == 'build_panel_map']
+    new_functions = {m.name for m in calc.module.functions.values() if getattr(m.node, '_verif_new_helper', False) and not getattr(m.node, '_verif_transparent', False)}
     for h in hand:
-        fresh = any(ccfg.dominates(ccfg.node_of(bl), ccfg.node_of(h)) and ccfg.node_of(bl) != ccfg.node_of(h) for bl in builds)
+        fresh, why = _rebuilt_before(calc.node, [h], 'database', panel_is_column, new_helpers=new_functions)
         ctx.add('C09.R2', 'calculator:rebuild', fresh, (calc.file, h.lineno), 'the individual map is rebuilt on every path that hands it to the engine' if fresh
-                else 'the individual map is handed to the engine on a path that does not rebuild it: after a change of the rows (remove, sampling) the engine multiplies over the rows of a stale map', 'rebuild')
+                else (f'the individual map is handed to the engine on a path that does not rebuild it ({why}): after a change of the rows (remove, sampling) the engine multiplies over the rows of a stale map' if fresh is False
+                      else f'whether the individual map is rebuilt on every path that hands it to the engine is not decided: {why}'), 'rebuild', positive=fresh is False)
     ctx.add('C09.R2', 'calculator:panel', ok, calc, 'a trajectory operator needs panel data; the map is rebuilt and handed over' if ok else 'panel handling of the calculator changed', 'calc')
 
     g = D.methods['get_sample_size']
